@@ -528,6 +528,7 @@ func cmdCheck(args []string) int {
 
 	// violations: write replay files, confirm natively where sequential
 	rc := 0
+	nativeTries := 0
 	var lines []string
 	for i, v := range allViol {
 		g := violGroup[i]
@@ -550,6 +551,21 @@ func cmdCheck(args []string) int {
 			}
 		} else {
 			rf.Confirmed = "engine"
+			// schedule-dependent: the controller-style harness is often deterministic natively too; best effort
+			if rf.Schedule && !stubbed[i] && v.Kind != "unsat-obligation" && nativeTries < 4 && os.Getenv("SYMGO_NO_NATIVE") == "" {
+				nativeTries++
+				rs, cmdline, err := runNative(mergeGroupFiles(groups, g.Pkg), pkgs[g.Pkg].Pkg.Name(), harnessNames[g.Pkg], []nativeCase{{v.Harness, v.Model, violParams[i]}}, v.Kind == "race")
+				rf.NativeCmd = cmdline
+				if err == nil {
+					rf.Native = rs[0].Outcome
+					if strings.HasPrefix(rs[0].Outcome, "violated") {
+						rf.Confirmed = "native"
+					}
+				} else if v.Kind == "race" && strings.Contains(err.Error(), "DATA RACE") {
+					rf.Native = "DATA RACE reported by go test -race"
+					rf.Confirmed = "native"
+				}
+			}
 		}
 		jb, _ := json.MarshalIndent(rf, "", " ")
 		os.WriteFile(path, jb, 0o644)
